@@ -1,10 +1,10 @@
 ENGINES = [
  {"name": "procsim (E1)", "path": "/verif/shim/simos_preload.c + /verif/sim/src/exec.rs",
   "serves_properties": ["C12", "C16", "C17", "C18", "C19"],
-  "kind_free_text": "the real hdwallet binary, one OS process per simulated command, against a simulated libc boundary (LD_PRELOAD): getentropy, read(0), read(input files), write(1) execute an explicit seeded plan; no source hook"},
+  "kind_free_text": "the real hdwallet binary, one OS process per simulated command, against a simulated libc boundary (LD_PRELOAD): getentropy/getrandom, read/readv on fd 0 (and on any descriptor naming fd 0's pipe, e.g. /dev/stdin opened as a file), read(input files), write/writev on fd 1 execute an explicit seeded plan; no source hook"},
  {"name": "procsim-mt (E3)", "path": "/verif/shim/simos_preload.c (second half) + /verif/sim/src/exec.rs",
   "serves_properties": ["C12", "C17", "C18"],
-  "kind_free_text": "the real hdwallet binary with its real std threads under a scheduler inside the LD_PRELOAD shim: one token holder runs at a time, the token moves at pthread_create/join, futex wait/wake (implemented in the shim), sched_yield, sleeps, getentropy; seeded or traced choices, simulated monotonic clock, deadlock detection; no source hook. Used for one in five/six threaded scenarios and as the fallback when threads are created outside the E2 seam"},
+  "kind_free_text": "the real hdwallet binary with its real std threads under a scheduler inside the LD_PRELOAD shim: one token holder runs at a time, the token moves at pthread_create/join, futex wait/wake (implemented in the shim), sched_yield, sleeps, getentropy; seeded (random walk, sticky, PCT-like priorities with change points, long preemptions) or traced choices, simulated monotonic clock, deadlock detection; no source hook. Used for one in five/six threaded scenarios and as the fallback when threads are created outside the E2 seam"},
  {"name": "threadsim (E2)", "path": "/verif/sim/src/bin/threadsim",
   "serves_properties": ["C12", "C17", "C18"],
   "kind_free_text": "cmd::new::run compiled from /repo's working tree under shuttle with our own seeded recording scheduler; getentropy replaced at link time by the simulated entropy device (a scheduling point); one OS process per simulated process, which really exits when the command's main task returns"},
@@ -36,7 +36,7 @@ CHECKS = [
   "workers under seeded random/sticky/PCT-like schedules with a failure at a seeded request. Oracle over the recorded history: the printed phrase is a valid "
   "L-word BIP-39 phrase whose entropy is exactly one of the byte strings the source delivered to this process in a request of exactly ENT bytes; unsupported "
   "lengths refused; a failure before any qualifying value means error exit and empty stdout (multi-worker: success only with delivered qualifying entropy, error "
-  "only if a failure was delivered; a failure delivered to a task that finished before the printed value existed must make the command fail; no task may request again after its request failed); every printed phrase is accepted by the real `address --mnemonic`. A library scenario (2..4 real threads calling Mnemonic::random concurrently under the shim's scheduler, E3) requires every phrase to carry bytes delivered to that thread's own requests. One threaded scenario in six runs on the real binary under E3. Sampling, not proof.",
+  "only if a failure was delivered; a failure delivered to a task that finished before the printed value existed must make the command fail; no task may request again after its request failed); every printed phrase is accepted by the real `address --mnemonic`. 70 enumerated twin generations (5 lengths x 14 remarkable first values - byte patterns, zero first byte, repeated words, extreme Hamming weight - against an unremarkable one, 20 distinct values behind both): whether the command succeeds and where in the delivered byte stream the printed entropy lies must not depend on the values delivered (a conditional redraw makes some phrases impossible). A library scenario (2..4 real threads calling Mnemonic::random concurrently under the shim's scheduler, E3) requires every phrase to carry bytes delivered to that thread's own requests. One threaded scenario in six runs on the real binary under E3. Sampling, not proof.",
   "DESIGN.md §5.1",
   "Trusted: RustCrypto primitives and the canonical English list copy used by the reference BIP-39; the kernel/loader; shuttle's thread/channel models. "
   "E1 never decides a run with more than one searching thread; E2 stubs src/main.rs and is cross-validated against E1 on single-searcher runs. "
@@ -47,7 +47,7 @@ CHECKS = [
   "Seeded exploration over schedules x entropy plans x configurations of the vanity search under our own seeded recording scheduler (E2): all 16 one-digit "
   "prefixes in both cases x thread counts 0,1,2,16 enumerated every run, then seeded scenarios (prefix of 0..40 digits derived from the reference address of a "
   "planted entropy value, per-letter case flips, passphrases, account index or explicit path, 0..64 workers, plant position 0..12, random/sticky/PCT-like "
-  "and stall-at-publish policies; one search in sixty is deep: plant at draw 50..70 with a non-matching aftermath). Oracle: exit 0 => one line, a reference-valid phrase of the requested length whose reference-derived address for the selected account starts "
+  "and stall-at-publish policies; one search in sixty is deep: plant at draw 50..70 with a non-matching aftermath). Enumerated besides: for every prefix length 1..40 an exact match, a candidate with only the last digit wrong and one with a seeded digit wrong (the near miss is delivered first, then the source fails for good: the search must end in an error and never print it); matches planted at draws 63..65, 127..129, 255..257 with 3/5/6/7 workers and 300 non-matching values behind them. Oracle: exit 0 => one line, a reference-valid phrase of the requested length whose reference-derived address for the selected account starts "
   "with the requested digits and whose entropy was really delivered; valid arguments and no injected failure => exit 0; non-hex prefix refused; bounded "
   "liveness after the device turns generous (384+32*workers further requests); no deadlock; a non-hex prefix is refused (printing a phrase or starting a search both count as acceptance). One threaded scenario in six runs on the real binary under the shim's scheduler (E3). Failures are replayed from an explicit minimised choice trace. Sampling, not proof.",
   "DESIGN.md §5.2",
@@ -59,9 +59,9 @@ CHECKS = [
  ("C17", "exploration",
   "Two halves. (i) Decided by schedule/fault search (E2): `new` with 0..64 workers x argument tuples that make key derivation fail or die inside a worker, "
   "entropy failures at every early position, all scheduler policies; invariant: no task panics, no deadlock before exit (a dead worker is modelled as thread "
-  "death, so 'all workers died' shows up as the main thread blocked for ever), exit within 384+32*workers further entropy requests once the device is generous; every such verdict of E2 is confirmed on the real binary under E3 before it is reported. 56 enumerated legacy transactions sit at the EIP-155 v-overflow limit +-3. "
+  "death, so 'all workers died' shows up as the main thread blocked for ever), exit within 384+32*workers further entropy requests once the device is generous; every such verdict of E2 is confirmed on the real binary under E3 before it is reported. 56 enumerated legacy transactions sit at the EIP-155 v-overflow limit +-3; 2112 enumerated typed-data documents carry one intN/uintN member (N = 8..256) at every boundary of its range, as number, decimal and hex string. "
   "(ii) Sampled by the workload (E1, real binary): boundary-biased and mutated-valid inputs for every user-reachable parser; invariant: exit status is not 101 (panic), "
-  "no signal, termination within 10 s (a timeout is re-run alone before it is believed). Half (ii) is input generation run by the simulator, not a decision by simulation. Sampling, not proof.",
+  "no signal, termination within a budget of 10 s of the simulated process's own CPU time, or no runnable thread and no progress at all (a timeout is re-run alone before it is believed). Half (ii) is input generation run by the simulator, not a decision by simulation. Sampling, not proof.",
   "DESIGN.md §5.3",
   "Checked-optimised build (overflow-checks, debug-assertions) so overflow is a panic. Worker counts bounded to 0..=64, prefixes to what the planted/generous device can "
   "satisfy. A parser panic the generator does not draw is not found; per-family counts are in the evidence. Library-level entry points not reachable from the CLI "
@@ -71,7 +71,7 @@ CHECKS = [
  ("C19", "exploration",
   "Seeded exploration of the two-process `hex encode | hex decode` pipeline on the real binary under simulated stream delivery: "
   "per stage a read plan (chunking down to 1 byte, EINTR incl. on the read that observes EOF, one hard EIO) on stdin or on the input file, "
-  "and a write plan (short writes, EINTR) on stdout; oracle: byte-exact round trip under benign plans, failure with zero output bytes under a hard error. "
+  "and a write plan (short writes, EINTR; write and writev) on stdout; oracle: byte-exact round trip under benign plans, failure with zero output bytes under a hard error. "
   "Lengths 0..=64 and all 256 byte values are enumerated in every batch. Sampling, not proof.",
   "DESIGN.md §5.5",
   "Decided by simulation: independence of the result from stream delivery, and no partial output on failure. Only sampled by the workload "
